@@ -293,11 +293,10 @@ func Build(d *spec.Design) {
 					v := v
 					dsl.View(v.Name, func() {
 						for _, f := range v.Fields {
-							if fa := u.Attr.Type.Field(f); fa != nil && fa.View != "" {
-								view := fa.View
+							if view, ok := v.Overrides[f]; ok {
 								dsl.Attribute(f, func() { dsl.View(view) })
 							} else {
-								dsl.Attribute(f)
+								dsl.Attribute(f) // keeps the view set on the attribute itself, if any
 							}
 						}
 					})
